@@ -32,7 +32,7 @@ pub enum Rec {
     WakerNonZero,
     /// result of the tty read (after `guard_io`): the bytes
     TtyRead(Vec<u8>),
-    /// an event was appended to `events_queue` (Debug rendering)
+    /// an event was appended to `events_queue` (rendered by `canon`)
     Pushed(String),
     /// bytes appended to `write_queue` by the loop itself (size query after SIGWINCH)
     Queued(usize),
@@ -65,6 +65,23 @@ pub(super) fn pending(fd: impl std::os::fd::AsFd) -> u64 {
     rustix::io::ioctl_fionread(fd).unwrap_or(u64::MAX)
 }
 
+/// canonical token of an event: `wake`, `resize`, `k<code point>` for an unmodified character key,
+/// `da` device attributes, `sz` size report, `o:<Debug>` anything else
+pub fn canon(event: &crate::TerminalEvent) -> String {
+    use crate::{KeyMod, KeyName, TerminalEvent as E};
+    match event {
+        E::Wake => "wake".into(),
+        E::Resize(_) => "resize".into(),
+        E::DeviceAttrs(_) => "da".into(),
+        E::Size(_) => "sz".into(),
+        E::Key(key) if key.mode == KeyMod::EMPTY => match key.name {
+            KeyName::Char(c) => format!("k{}", c as u32),
+            _ => format!("o:{event:?}"),
+        },
+        _ => format!("o:{event:?}"),
+    }
+}
+
 /// all records since the last call, in order
 pub fn take_trace() -> Vec<Rec> {
     std::mem::take(&mut *TRACE.lock().unwrap_or_else(|err| err.into_inner()))
@@ -94,9 +111,9 @@ pub fn saved_termios(term: &super::UnixTerminal) -> Vec<u32> {
     termios_words(&term.termios_saved)
 }
 
-/// Debug rendering of the events waiting in `events_queue`, front first
+/// the events waiting in `events_queue`, front first (rendered by `canon`)
 pub fn events_queue(term: &super::UnixTerminal) -> Vec<String> {
-    term.events_queue.iter().map(|e| format!("{e:?}")).collect()
+    term.events_queue.iter().map(canon).collect()
 }
 
 /// is the terminal size taken from escape sequences (`size` is `Some`) rather than ioctl
